@@ -15,7 +15,7 @@ class World:
         self.leaves = list(leaves)
         self.prs = {n: PathsRef(n) for n in PathsRef().configs}
         self.names = list(self.prs)
-        self.sources = rstore.sources_for_demo(load_private("spil_sid_conf")) if hasattr(load_private("spil_sid_conf"), "asset_types") else {}
+        self.sources = rstore.sources_for_demo(load_private("spil_sid_conf"))
         self.store = rstore.Store(ref, self.prs[self.names[0]], self.leaves, self.sources)
 
     def materialize(self, junk=None):
